@@ -180,6 +180,38 @@ def repr_text(wire) -> str | None:
         return None
 
 
+def literal_keys_text(wire) -> str | None:
+    """Python-literal text of a wire value in which mapping keys that *read* as other literals are
+    written as those literals ({1: ..}, {None: ..}, {(1, 2): ..}): valid input for the text
+    decoder's literal fallback, with keys that are not str."""
+    import ast
+
+    def conv(x):
+        if isinstance(x, dict):
+            out = {}
+            for k, v in x.items():
+                nk = k
+                if isinstance(k, str):
+                    try:
+                        lit = ast.literal_eval(k)
+                        hash(lit)
+                        nk = lit
+                    except Exception:  # noqa: BLE001 - not a literal (or unhashable): stays text
+                        nk = k
+                if nk in out:
+                    nk = k
+                out[nk] = conv(v)
+            return out
+        if isinstance(x, list):
+            return [conv(e) for e in x]
+        return x
+
+    try:
+        return repr(conv(gen.wire_to_json(wire)))
+    except (TypeError, ValueError):
+        return None
+
+
 # ---------------------------------------------------------------------------- junk pool
 
 JUNK = [
